@@ -37,7 +37,7 @@ RULE = ("complete grid container x dtype x index x column names per detector con
         "when the reference produced a detection / a fitted value / a score array (not an exception, not an empty detection set); "
         "distinct = (configuration, data id, cell, entry point)")
 
-INDEX_KINDS = ("range0", "range5", "range-step2", "datetime", "period")
+INDEX_KINDS = ("range0", "range5", "range-step2", "datetime", "period", "datetime-tz")
 COLUMN_KINDS = ("default", "strings", "labels", "rotated-after-fit")
 DTYPES = ("float64", "int64")
 REF = ("df", "float64", "range0", "default")
@@ -57,6 +57,8 @@ def make_index(kind, n):
         return pd.date_range("2021-03-01", periods=n, freq="D")
     if kind == "period":
         return pd.period_range("2021-03", periods=n, freq="M")
+    if kind == "datetime-tz":       # a time-zone-aware, named datetime index (still a DatetimeIndex: "X's own index" includes zone and name)
+        return pd.date_range("2021-03-01", periods=n, freq="h", tz="Europe/Oslo", name="when")
     raise ValueError(kind)
 
 
@@ -277,7 +279,9 @@ def observe(make, X, cell, restart_update=False):
         obs["scores"] = ("skip",)
 
     def dense(out):
-        return (numeric(out), bool(out.index.equals(own_index)) if len(out) == n else None)
+        same = bool(out.index.equals(own_index)) and str(getattr(out.index, "tz", None)) == str(getattr(own_index, "tz", None)) \
+            and (own_index.name is None or out.index.name == own_index.name)
+        return (numeric(out), same if len(out) == n else None)
     r = attempt(lambda: det.transform(R))
     obs["transform"] = ("ok", dense(r[1])) if r[0] == "ok" else r
     r = attempt(lambda: det.transform_scores(R))
